@@ -25,19 +25,20 @@ filter: `values_equal` = `a == b || |a−b| < ε` with the subtraction rounded a
     `mixed`), `ikey_mono` (`i64 as f64` is weakly monotone and never NaN on the whole i64 range),
     `eps_window` (whatever the filter's numeric `=` accepts lies inside `[v−ε, v+ε]` as computed in
     double arithmetic: rounding is monotone and fixes representable numbers).
-(b) `c10_index_eq_scan_partial`, `c10_index_toggle_invariant` (**P**, code unchanged):
-    `find_nodes_by_property` with an index = the scan, for histories writing to live nodes, when
-    `Value ==` and bit identity agree on the column (`valEq_iff_eq`: they differ only at NaN, ±0).
-    `IndexEqScan` refuted: `c10_w_index_negzero`, `_nan`, `_nonlive`, `_misses_live` (API level).
-(c) `c10_planner_paths_agree`, `c10_planner_path_independent` / `c10_PlannerPathIndependent` (**F**
-    under `wfRun`): every path the planner may take returns the generic filter's node set — a
-    function of live nodes and current values only. Ingredient `keys_cover`: the lookup keys of
-    the index path (65e98ae) cover everything the filter's `=` accepts. `wfRun` (properties are
-    written to live nodes) is needed by the index path only
-    (`c10_planner_path_independent_noindex`); without it: `c10_w_plan_index_misses_live`,
-    `c10_planner_any_writes_refuted` (API level).
+(b) `c10_index_eq_scan_partial`, `c10_index_toggle_invariant` (**P**): `find_nodes_by_property`
+    with an index = the scan, for every history, when `Value ==` and bit identity agree on the
+    column (`valEq_iff_eq`: they differ only at NaN, ±0). `IndexEqScan` refuted:
+    `c10_w_index_negzero`, `c10_w_index_nan` (API level). Ingredient `iinv_run` (every history):
+    each index relation is exactly {(value, node) | node's current value}, properties exist on
+    live nodes only (a write to an id that is not a live node is a no-op since 9bbd0dc).
+(c) `c10_planner_paths_agree`, `c10_planner_path_independent` / `c10_PlannerPathIndependent`
+    (**F**, every history): every path the planner may take returns the generic filter's node
+    set — a function of live nodes and current values only. Ingredient `keys_cover`: the lookup
+    keys of the index path (65e98ae) cover everything the filter's `=` accepts.
     `c10_rebuild_order_irrelevant`: the (random) iteration order of `rebuild_zone_map` never shows
     in an answer.
+R: `c10_reg_index_nonlive`, `c10_reg_index_misses_live`, `c10_reg_plan_index_misses_live`: the
+    three defects of the old `set_node_property` (`Old.setProp`) and the repaired outcome.
 N/regression: `c10_nv_zone`, `c10_nv_planner`, `c10_nv_index`.
 -/
 
@@ -2028,7 +2029,7 @@ theorem mem_find_indexed (ops : List SOp) (key : Nat) (v : V) (n : Nat)
     simp only
     rw [mem_relLookup, hinv.exact key r hk v n]
 
-/-- **(b) (partial).** For every history in which writes go to live nodes — with index creation
+/-- **(b) (partial).** For every history — with index creation
 and drop at any points, overwrites, removes, node deletions, rebuilds — `find_nodes_by_property`
 returns, as a set, exactly what the scan returns, provided the two equalities in play
 (`HashableValue` = bit identity in the index, `Value ==` = IEEE `==` in the scan) agree on the
@@ -2126,19 +2127,6 @@ theorem c10_w_index_nan :
     (Store.run ops).find 0 (.float f64_nan) = [] ∧
     (Store.run (ops ++ [.index 0])).find 0 (.float f64_nan) = [0] := by decide
 
-/-- W: a property written to an id that is not a live node (the store does not check):
-the index returns the id, the scan (over live nodes) does not. -/
-theorem c10_w_index_nonlive :
-    let ops := [SOp.index 0, .set 5 0 (.int 1)]
-    (Store.run ops).find 0 (.int 1) = [5] ∧
-    (Store.run (ops ++ [.dropindex 0])).find 0 (.int 1) = [] := by decide
-
-/-- W: the converse loss — a property written before the node exists, index built in between:
-the live node is missing from the indexed answer. -/
-theorem c10_w_index_misses_live :
-    let ops := [SOp.set 0 0 (.int 1), .index 0, .node]
-    (Store.run ops).find 0 (.int 1) = [] ∧ (Store.run ops).scanFind 0 (.int 1) = [0] := by decide
-
 theorem c10_index_eq_scan_refuted : ¬ IndexEqScan := by
   intro h
   have := h [.node, .set 0 0 (.float f64_nan), .index 0] 0 (.float f64_nan) 0
@@ -2149,7 +2137,9 @@ the indexed answer is the scan answer. -/
 theorem c10_nv_index :
     let ops := [SOp.node, .node, .node, .set 0 0 (.int 1), .set 1 0 (.int 1), .index 0,
       .set 1 0 (.int 2), .set 2 0 (.int 1), .remove 0 0, .set 1 0 (.int 1), .delnode 2]
-    wfRun {} ops ∧ (Store.run ops).find 0 (.int 1) = [1] ∧ (Store.run ops).scanFind 0 (.int 1) = [1] := by
+    (Store.run ops).find 0 (.int 1) = [1] ∧ (Store.run ops).scanFind 0 (.int 1) = [1] ∧
+    -- writes to a deleted node and to an id never created are no-ops
+    (Store.run (ops ++ [.set 2 0 (.int 1), .set 9 0 (.int 1)])).find 0 (.int 1) = [1] := by
   decide
 
 /-! ## 6. (c) The planner's path choice does not matter -/
